@@ -111,13 +111,14 @@ def run(ctx):
         ctx.bounds = {"depth": 4, "K": 3, "configs": len(cfgs), "events_per_frame": 16}
     else:
         cfgs = T.all_configs(windows=[1, 2, 3], thresholds=[0.0, 0.5], reductions=("mean", "max"))
-        jobs = [(c, 3, 5, False) for c in cfgs]
+        # K=3: depth 5 for the default 'mean' reduction, depth 4 for 'max' (the depth-5 frontier dominates the cost)
+        jobs = [(c, 3, 5 if c["scoring_reduction"] == "mean" else 4, False) for c in cfgs]
         # low-score marks triple the event alphabet (49 events per frame): depth 4 for K=3, depth 6 for K=2
         jobs += [(c, 3, 4, True) for c in cfgs if c["instance_score_threshold"] > 0]
         jobs += [(c, 2, 6, c["instance_score_threshold"] > 0) for c in cfgs]
         # detections with missing nodes: one node NaN ('p') or every node NaN ('n')
         jobs += [(c, 2, 4, False, True) for c in cfgs if c["instance_score_threshold"] == 0]
-        ctx.bounds = {"depth_K3": 5, "depth_K3_with_low_score_marks": 4, "depth_K2": 6, "depth_K2_with_missing_nodes": 4, "configs": len(cfgs), "events_per_frame": "16 (49 with low-score marks when threshold 0.5)"}
+        ctx.bounds = {"depth_K3": "5 (reduction mean) / 4 (reduction max)", "depth_K3_with_low_score_marks": 4, "depth_K2": 6, "depth_K2_with_missing_nodes": 4, "configs": len(cfgs), "events_per_frame": "16 (49 with low-score marks when threshold 0.5)"}
     jobs = core.rotate(jobs, ctx.seed)
     core.pmap(ctx, work, [[j] for j in jobs])
 
